@@ -185,7 +185,7 @@ def build_engine(ctx, pkg, files, out):
     return path
 
 
-def run_engine(ctx, binpath, test, cases, tag):
+def run_engine(ctx, binpath, test, cases, tag, env=None, tolerate_rc=False):
     fin = os.path.join(ctx.workdir, tag + ".in")
     fout = os.path.join(ctx.workdir, tag + ".out")
     with open(fin, "w") as f:
@@ -193,13 +193,25 @@ def run_engine(ctx, binpath, test, cases, tag):
             f.write(json.dumps(c) + "\n")
     if os.path.exists(fout):
         os.remove(fout)
-    rc, log = ctx.run_bin(binpath, ["-test.run", test], env={"VERIF_IN": fin, "VERIF_OUT": fout})
+    e = {"VERIF_IN": fin, "VERIF_OUT": fout}
+    if env:
+        e.update(env)
+    rc, log = ctx.run_bin(binpath, ["-test.run", test], env=e)
+    if tolerate_rc:
+        STATE_RACES[:] = re.findall(r"WARNING: DATA RACE.*?={10,}", log, re.S)
+        try:
+            return [json.loads(l) for l in open(fout)]
+        except (OSError, ValueError):
+            return []
     if rc != 0:
         raise RuntimeError("%s engine failed:\n%s" % (tag, log[-3000:]))
     obs = [json.loads(l) for l in open(fout)]
     if len(obs) != len(cases):
         raise RuntimeError("%s engine: %d observations for %d cases" % (tag, len(obs), len(cases)))
     return obs
+
+
+STATE_RACES = []
 
 
 def hb(s):
@@ -612,6 +624,9 @@ def merkle_family(ctx, st):
         if "panic" in o:
             st.fail("C19:merkle-panic", "CalculateMerkleTree panicked", {"n": len(l), "panic": o["panic"]})
             continue
+        if o.get("empty_root_is_shared_slice"):
+            st.aliasing_notes.add("merkle.CalculateMerkleRoot(empty list) hands out the package-level nilHash slice itself: every empty "
+                                  "block's TxsRootHash / ReceiptsRootHash shares one array (package-level mutable state; safe only while nobody writes into a root)")
         items.append("([%s], %s)" % ("; ".join(cb(x) for x in l), cb(hb(o["root"]))))
         src.append({"leaves": [x.hex() for x in l], "root": o["root"]})
         st.nontrivial.add(("M", len(l)))
@@ -1464,7 +1479,86 @@ def restart_family(ctx, st):
                     "block after every step vs the model's step function")
 
 
-EXTRA_FAMILIES = [corpus_family, receipts_family, merkle_family, hardfork_family, txsign_family, chainid_family, txroot_family, genesis_family, genesis_store_family, store_family, restart_family, forkboundary_family, bloom_family, receipt_damage_family]
+# ------------------------------------------------------------------ concurrency: the encoders / hashers / roots are FUNCTIONS
+def concurrent_family(ctx, st):
+    """The model functions are pure.  That the Go functions are (no package-level hasher / buffer shared between calls) is tied
+    by recomputing fixed inputs from many goroutines at once and comparing with the sequentially computed values; in the thorough
+    tier the same run is repeated on binaries built with the race detector."""
+    rng = ctx.rng
+    quick = ctx.tier == "quick"
+    items = []
+    for n in [0, 1, 2, 3, 5, 8, 16, 17]:
+        items.append({"kind": "TR", "txs": [json_tx(rand_tx(rng)) for _ in range(n)]})
+    for ver in (1, 2):
+        for n in [1, 3, 4, 7]:
+            items.append({"kind": "RS", "ver": ver, "hasbloom": n % 2 == 1, "bloomkeys": [rbytes(rng, 6).hex()],
+                          "rs": [json_receipt(rand_receipt(rng, True)) for _ in range(n)]})
+    for _ in range(4):
+        items.append({"kind": "H", "h": json_header(rand_header(rng))})
+        items.append({"kind": "T", "t": json_tx(rand_tx(rng))})
+        items.append({"kind": "R", "ver": 2, "r": json_receipt(rand_receipt(rng, True))})
+    lists = [[rbytes(rng, 32).hex() for _ in range(n)] for n in [1, 2, 3, 4, 5, 7, 8, 9, 16, 17, 31, 33]]
+    workers, iters = (8, 6) if quick else (16, 40)
+    runs = [("plain", st.types_bin, os.path.join(ctx.workdir, "codec_merkle.test"))]
+    if not quick:
+        rb = build_race(ctx)
+        if rb:
+            runs.append(("race", rb[0], rb[1]))
+        else:
+            ctx.notes.append("race-detector build of the types / merkle engines failed; concurrent predicate run without it")
+    for tag, tbin, mbin in runs:
+        fin_env = {"GORACE": "halt_on_error=0 exitcode=66"} if tag == "race" else None
+        races = []
+        o = run_engine(ctx, tbin, "TestVerifCodecEngine", [{"kind": "CONC", "items": items, "workers": workers, "iters": iters}], "conc_" + tag,
+                       env=fin_env, tolerate_rc=(tag == "race"))
+        if tag == "race":
+            races += list(STATE_RACES)
+        m = run_engine(ctx, mbin, "TestVerifMerkleEngine", [{"conc": lists, "workers": workers, "iters": iters * 4}], "concm_" + tag,
+                       env=fin_env, tolerate_rc=(tag == "race"))
+        if tag == "race":
+            races += list(STATE_RACES)
+        for what, ob in (("types", o[0] if o else None), ("merkle", m[0] if m else None)):
+            if ob is None:
+                st.fail("C19:concurrent-engine-died", "the %s engine died in the concurrent run (%s build)" % (what, tag), {"races": races[:3]})
+                continue
+            if ob.get("sequential_unstable"):
+                st.fail("C19:not-a-function-sequential", "recomputing the same input sequentially gives another result", {"engine": what})
+            if ob["mismatches"]:
+                b0 = ob["mismatches"][0]
+                st.fail("C19:not-a-function-under-concurrency",
+                        "%d goroutines recomputing fixed inputs at the same time: %s differs from the sequentially computed value "
+                        "(a hasher / buffer is shared between calls)" % (workers, ("the merkle root of a %d-entry list" % b0["n"]) if what == "merkle"
+                                                                          else {"TR": "a transaction root", "RS": "a receipts root / receipt list encoding",
+                                                                                "H": "a block identifier input / hash", "T": "a transaction hash",
+                                                                                "R": "a receipt encoding / leaf hash"}.get(b0.get("kind"), "a result")),
+                        {"engine": what, "build": tag, "workers": workers, "iters": iters, "mismatches": ob["mismatches"],
+                         "input": (lists[b0["list"]] if what == "merkle" else items[b0["item"]])})
+        if races:
+            st.fail("C19:data-race-in-encoders", "the race detector reports a data race in the codec / merkle code under the concurrent run",
+                    {"reports": races[:2]})
+        st.evals += (o[0].get("evaluations", 0) if o else 0)
+        st.nontrivial.add(("CONC", tag))
+    st.dist["concurrent_recomputations"] = workers * iters * (len(items) + 4 * len(lists))
+    st.rules.append("concurrency: %d goroutines x %d rounds over 8 tx lists, 8 receipt lists (V1/V2, bloom), headers, txs, receipts and 12 merkle "
+                    "leaf lists, each goroutine in its own order, compared with the sequential values; thorough: again under the race detector" % (workers, iters))
+
+
+def build_race(ctx):
+    env = ctx.goenv()
+    env["CGO_ENABLED"] = "1"
+    outs = []
+    for pkg, f, out in (("types", "zz_verif_codec_engine_test.go", "codec_types_race.test"), ("internal/merkle", "zz_verif_merkle_engine_test.go", "codec_merkle_race.test")):
+        ov = ctx.plain_overlay({os.path.join(pkg, f): os.path.join(ENG, f)})
+        outp = os.path.join(ctx.workdir, out)
+        rc, log = vf.sh(["go", "test", "-c", "-race", "-vet=off", "-tags", "verif", "-overlay", ov, "-o", outp, "./" + pkg], cwd=ctx.repo, env=env, timeout=1500)
+        if rc != 0:
+            ctx.notes.append("race build of %s failed: %s" % (pkg, log[-300:]))
+            return None
+        outs.append(outp)
+    return outs
+
+
+EXTRA_FAMILIES = [corpus_family, receipts_family, merkle_family, hardfork_family, txsign_family, chainid_family, txroot_family, genesis_family, genesis_store_family, store_family, restart_family, forkboundary_family, bloom_family, receipt_damage_family, concurrent_family]
 EXTRA_TARGETS = ["Common/Sha256.vo", "Common/Lit.vo", "Codec/Receipt.vo", "Codec/Merkle.vo", "Codec/Hardfork.vo", "Codec/TxRoot.vo", "Codec/GenesisStore.vo", "Codec/ChainStore.vo", "Codec/Bloom.vo", "Codec/Restart.vo"]  # evaluated models that no theorem depends on
 
 IMPORTS = """From Coq Require Import NArith ZArith List Bool String Uint63.
